@@ -80,6 +80,10 @@ package action
 //@   letold D = packet.TransferAttributes.destinationCoin.Denom
 //@   letold fs = feeAttrsOf(packet).FeesInfo
 //@   modifies bank, events, packet.TransferAttributes.destinationCoin
+//   C06: the action acts on the running coin it finds in the shared attributes - what it leaves is that coin's
+//   denomination and that coin's amount less a non-negative total smaller than it - not the coin originally received
+//@   ensures[C06] err == nil ==> ta.destinationCoin.Denom == D && !isnil(ta.destinationCoin.Amount) && val(ta.destinationCoin.Amount) > 0 && val(ta.destinationCoin.Amount) <= A
+//@   ensures[C06] err == nil ==> ta.sourceCoin == old(ta.sourceCoin)
 //@   ensures[C04,C02,C11]   err == nil ==> isFeeAttrs(packet) && validFees(fs)
 //@   ensures[C04,C02,C11]   err == nil ==> sum5(A, fs) < A && !isnil(ta.destinationCoin.Amount) && val(ta.destinationCoin.Amount) == A - sum5(A, fs)
 //@   ensures[C04,C02,C11]   err == nil ==> bank == feePay5(old(bank), A, D, fs)
